@@ -567,3 +567,63 @@ class RestartFaultHistory(History):
         finally:
             self.sim.teardown()
         return self.sim
+
+
+class CleanerFaultHistory(History):
+    """Directed history (C04): one unlink of qmail-clean fails while message 1 (three recipients) is being taken over from
+    todo/; one recipient then succeeds, the others are deferred; a second message is injected (its trigger starts the next
+    todo scan); everything is answered K from then on.  A message scheduled while its todo entry is still there would be
+    preprocessed a second time by that scan and its finished recipient attempted again."""
+
+    def run(self):
+        sim, rng, p = self.sim, self.rng, self.prof
+        try:
+            tok = core.hashlib.sha256(self.label.encode()).hexdigest()[:8].encode()
+            self.nmsg = 1
+            sim.inject(b"Subject: m1\nX-Token: %s0001\n\nbody\n" % tok, b"Fs1@local.test\0Ta@local.test\0Tb@local.test\0Tc@remote.test\0\0")
+            sim.start_daemons(plan=self.plan or "")
+            answered_k = False
+            injected2 = False
+            for step in range(160):
+                try:
+                    ent = sim.run_until_quiescent()
+                except qsim.DaemonExit as e:
+                    st = e.status
+                    self.res.violate("C03/daemon-died/%s" % (("sig%d" % os.WTERMSIG(st)) if os.WIFSIGNALED(st) else "exit%d" % os.WEXITSTATUS(st)),
+                                     "qmail-send ended unexpectedly; log tail %r" % sim.dlog[-300:], self.witness())
+                    return sim
+                if sim.outstanding:
+                    k = sorted(sim.outstanding)[0]
+                    cmd = sim.outstanding[k]
+                    if not answered_k and cmd.recip.startswith(b"a@"):
+                        answered_k = True
+                        sim.report(cmd, b"Kdone\n")
+                    elif not injected2:
+                        sim.report(cmd, b"Zlater\n")
+                    else:
+                        sim.report(cmd, b"Kdone\n")
+                    continue
+                if not injected2:
+                    injected2 = True
+                    self.nmsg = 2
+                    sim.inject(b"Subject: m2\nX-Token: %s0002\n\nbody\n" % tok, b"Fs2@local.test\0Td@local.test\0\0")
+                    continue
+                left = {n: d for n, d in sim.scan().items() if "info" in d or "todo" in d}
+                if not left:
+                    break
+                sim.advance(max(1, min(ent.get("T", 1), 1600)))
+            else:
+                self.res.inconclusive.append("directed cleaner-fault history %s did not drain" % self.label)
+                return sim
+            self.finished = True
+            self.term_pending = True
+            sim.signal("TERM")
+            try:
+                sim.run_until_quiescent()
+            except qsim.DaemonExit:
+                pass
+            for o in self.oracles:
+                o.at_end(sim)
+        finally:
+            self.sim.teardown()
+        return self.sim
